@@ -46,7 +46,8 @@ def modeOfString : String → Option Mode
 
 def cfgOfJson (j : Json) : Option Cfg := do
   let m ← modeOfString (getStrD j "mode")
-  pure { mode := m, tddl := getBoolD j "tddl", perMig := getBoolD j "perMig", external := getBoolD j "external" }
+  pure { mode := m, tddl := getBoolD j "tddl", perMig := getBoolD j "perMig", external := getBoolD j "external",
+         orphan := getBoolD j "orphan" }
 
 def dbOfJson (j : Json) : Db :=
   { objs := getNatList j "objs", rows := getNatList j "rows", vt := getBoolD j "vt" }
